@@ -1,6 +1,6 @@
 (* Main theorem about Model/Schema.visit: under the named guards, in every mode,
    visit never panics and accepts exactly the values satisfying Spec/SchemaSpec.satb. *)
-From KV Require Import Model.Base Model.Json Model.Schema Spec.SchemaSpec Spec.SchemaGuards Proofs.SchemaProofs.
+From KV Require Import Model.Base Model.Json Model.Schema Spec.SchemaSpec Spec.SchemaGuards Spec.SchemaGuardsRW Proofs.SchemaProofs.
 From Coq Require Import Btauto.
 Local Open Scope list_scope.
 
@@ -60,18 +60,20 @@ Section MAIN.
   Variable rm : string -> string -> bool.
   Variable fo : string -> string -> json -> option bool.
   Variable st : settings.
-  Hypothesis Hreq : st_asreq st = false.
-  Hypothesis Hrep : st_asrep st = false.
 
   Notation V := (visit rc rm fo st).
-  Notation Sat := (satb rc rm fo).
+  Notation md := (md_of st).
+  Notation Sat := (satb rc rm fo md).
+  Notation g_rw_here := (g_rw_here rc rm fo md).
+  Notation here_ok2 := (here_ok2 rc rm fo md).
+  Notation g_all2 := (g_all2 rc rm fo md).
 
   Definition good (s : schema) : Prop :=
-    forall v, g_all rc s = true -> vg v = true -> g_div s v = true ->
+    forall v, g_all2 s = true -> vg v = true -> g_div s v = true ->
               is_panic (V s v) = false /\ accepts (V s v) = Sat s v.
 
   Lemma goods_list (l : list schema) v :
-    Forall good l -> forallb (g_all rc) l = true -> vg v = true ->
+    Forall good l -> forallb g_all2 l = true -> vg v = true ->
     (forall x, In x l -> g_div x v = true) ->
     forallb np (map (fun x => V x v) l) = true /\
     (forall x, In x l -> accepts (V x v) = Sat x v).
@@ -149,6 +151,9 @@ Section MAIN.
     nodup_str (map fst props) = true -> nodup_str (map fst l) = true ->
     (forall k p x, In (k, p) props -> In (k, x) l -> accepts (V p x) = Sat p x) ->
     (forall a k x, ap = Some a -> In (k, x) l -> accepts (V a x) = Sat a x) ->
+    (forall k p, In (k, p) props -> forbidden md (core_of p) = true -> Sat p JNull = false) ->
+    forallb (fun kp => negb (pnn l (fst kp) && forbidden md (snd kp)))
+            (map (fun kp : string * schema => (fst kp, core_of (snd kp))) props) &&
     forallb (key_ok c (negb (is_none ap))
                (flat_map (fun kp : string * schema =>
                             match assoc (fst kp) l with
@@ -160,20 +165,26 @@ Section MAIN.
                | None => []
                end) l
     = forallb (fun kp => match assoc (fst kp) l with
-                         | Some x => Sat (snd kp) x
+                         | Some x => negb (forbidden md (core_of (snd kp))) && Sat (snd kp) x
                          | None => true
                          end) props &&
       forallb (fun kv => str_in (fst kv) (map fst props) ||
                          (match c_apHas c with Some false => false | _ => true end &&
                           match ap with Some a => Sat a (snd kv) | None => true end)) l.
   Proof.
-    intros Hnp Hnl Hp Ha.
-    apply Bool.eq_iff_eq_true. rewrite Bool.andb_true_iff, !forallb_forall. split.
-    - intros H. split.
+    intros Hnp Hnl Hp Ha Hg.
+    rewrite forallb_map'. cbn [fst snd].
+    apply Bool.eq_iff_eq_true. rewrite !Bool.andb_true_iff, !forallb_forall. split.
+    - intros [R H]. split.
       + intros [k p] Hin. cbn [fst snd]. destruct (assoc k l) as [x|] eqn:Hkl; [|reflexivity].
         pose proof (assoc_in _ _ _ Hkl) as Hinl. specialize (H _ Hinl).
         unfold key_ok in H. cbn [fst] in H. rewrite assoc_r_props in H.
-        rewrite (nodup_assoc _ _ _ Hnp Hin), Hkl in H. now rewrite <- (Hp _ _ _ Hin Hinl).
+        rewrite (nodup_assoc _ _ _ Hnp Hin), Hkl in H. rewrite (Hp _ _ _ Hin Hinl) in H.
+        rewrite H, Bool.andb_true_r.
+        destruct (forbidden md (core_of p)) eqn:Hf; [|reflexivity]. exfalso.
+        specialize (R _ Hin). cbn [fst snd] in R. unfold pnn in R. rewrite Hkl, Hf in R.
+        rewrite Bool.andb_true_r in R. apply Bool.negb_true_iff, Bool.negb_false_iff in R.
+        destruct x; try discriminate R. rewrite (Hg _ _ Hin Hf) in H. discriminate.
       + intros [k x] Hin. cbn [fst snd]. specialize (H _ Hin).
         unfold key_ok in H. cbn [fst] in H. rewrite assoc_r_props in H.
         rewrite assoc_none_str_in.
@@ -182,16 +193,22 @@ Section MAIN.
           (destruct ap as [a|]; cbn [is_none negb] in H; [|reflexivity]);
           rewrite assoc_r_ap, (nodup_assoc _ _ _ Hnl Hin) in H; cbn [option_map] in H;
           now rewrite <- (Ha a k x eq_refl Hin).
-    - intros [H1 H2] [k x] Hin. unfold key_ok. cbn [fst]. rewrite assoc_r_props.
-      destruct (assoc k props) as [p|] eqn:Hkp.
-      + rewrite (nodup_assoc _ _ _ Hnl Hin).
-        pose proof (assoc_in _ _ _ Hkp) as Hinp. specialize (H1 _ Hinp). cbn [fst snd] in H1.
-        rewrite (nodup_assoc _ _ _ Hnl Hin) in H1. now rewrite (Hp _ _ _ Hinp Hin).
-      + specialize (H2 _ Hin). cbn [fst snd] in H2. rewrite assoc_none_str_in, Hkp in H2. cbn [orb] in H2.
-        destruct (c_apHas c) as [[|]|]; try discriminate H2; cbn [andb] in H2;
-          (destruct ap as [a|]; cbn [is_none negb]; [|reflexivity]);
-          rewrite assoc_r_ap, (nodup_assoc _ _ _ Hnl Hin); cbn [option_map];
-          now rewrite (Ha a k x eq_refl Hin).
+    - intros [H1 H2]. split.
+      + intros [k p] Hin. cbn [fst snd]. specialize (H1 _ Hin). cbn [fst snd] in H1. unfold pnn.
+        destruct (assoc k l) as [x|]; [|reflexivity].
+        apply andb_prop in H1 as [Hf _]. apply Bool.negb_true_iff in Hf. rewrite Hf.
+        now rewrite Bool.andb_false_r.
+      + intros [k x] Hin. unfold key_ok. cbn [fst]. rewrite assoc_r_props.
+        destruct (assoc k props) as [p|] eqn:Hkp.
+        * rewrite (nodup_assoc _ _ _ Hnl Hin).
+          pose proof (assoc_in _ _ _ Hkp) as Hinp. specialize (H1 _ Hinp). cbn [fst snd] in H1.
+          rewrite (nodup_assoc _ _ _ Hnl Hin) in H1. apply andb_prop in H1 as [_ H1].
+          now rewrite (Hp _ _ _ Hinp Hin).
+        * specialize (H2 _ Hin). cbn [fst snd] in H2. rewrite assoc_none_str_in, Hkp in H2. cbn [orb] in H2.
+          destruct (c_apHas c) as [[|]|]; try discriminate H2; cbn [andb] in H2;
+            (destruct ap as [a|]; cbn [is_none negb]; [|reflexivity]);
+            rewrite assoc_r_ap, (nodup_assoc _ _ _ Hnl Hin); cbn [option_map];
+            now rewrite (Ha a k x eq_refl Hin).
   Qed.
 
   Lemma obj_checks_nopanic c l props has_ap r_props r_ap :
@@ -200,8 +217,11 @@ Section MAIN.
     forallb chk_nopanic (obj_checks st c l props has_ap r_props r_ap) = true.
   Proof.
     intros H1 H2. unfold obj_checks.
-    assert (Hrw : rw_chks st l props = []) by (unfold rw_chks; now rewrite Hreq, Hrep).
-    rewrite Hrw. rewrite !forallb_app. cbn [forallb app].
+    assert (Hrw : forallb chk_nopanic (rw_chks st l props) = true).
+    { unfold rw_chks. destruct (st_asreq st || st_asrep st); [|reflexivity].
+      induction props as [|kp ps IH]; [reflexivity|]. cbn [flat_map]. rewrite forallb_app, IH, Bool.andb_true_r.
+      repeat match goal with |- context [if ?b then _ else _] => destruct b end; reflexivity. }
+    rewrite !forallb_app. rewrite Hrw. cbn [forallb app].
     repeat (apply andb_true_intro; split); try reflexivity.
     all: try (match goal with |- chk_nopanic (if ?b then _ else _) = true => destruct b; reflexivity end).
     all: try (match goal with |- chk_nopanic (match ?o with Some _ => _ | None => _ end) = true =>
@@ -218,10 +238,10 @@ Section MAIN.
   Qed.
 
   Lemma g_all_unfold c n one any all it props ap :
-    g_all rc (Sch c n one any all it props ap) =
-    here_ok rc (Sch c n one any all it props ap) &&
-    (opt_all (g_all rc) n && forallb (g_all rc) one && forallb (g_all rc) any && forallb (g_all rc) all &&
-     opt_all (g_all rc) it && forallb (fun kp => g_all rc (snd kp)) props && opt_all (g_all rc) ap).
+    g_all2 (Sch c n one any all it props ap) =
+    here_ok2 (Sch c n one any all it props ap) &&
+    (opt_all g_all2 n && forallb g_all2 one && forallb g_all2 any && forallb g_all2 all &&
+     opt_all g_all2 it && forallb (fun kp => g_all2 (snd kp)) props && opt_all g_all2 ap).
   Proof. reflexivity. Qed.
 
   Lemma count_true_ext (l : list schema) v :
@@ -250,6 +270,7 @@ Section MAIN.
     apply andb_prop in Hsub as [Hsub Hgap]. apply andb_prop in Hsub as [Hsub Hgprops].
     apply andb_prop in Hsub as [Hsub Hgit]. apply andb_prop in Hsub as [Hsub Hgall].
     apply andb_prop in Hsub as [Hsub Hgany]. apply andb_prop in Hsub as [Hgn Hgone].
+    unfold here_ok2 in Hhere. apply andb_prop in Hhere as [Hhere Hrw].
     unfold here_ok in Hhere. cbn [core_of] in Hhere.
     apply andb_prop in Hhere as [Hhere Hnodup].
     apply andb_prop in Hhere as [Hhere Hpat]. apply andb_prop in Hhere as [Hhere Hsmall].
@@ -305,8 +326,10 @@ Section MAIN.
            | JNum x => num_ok fo c x
            | JStr x => str_ok rc rm fo c x
            | JArr l => arr_ok c l && match it with Some its => forallb (fun x => Sat its x) l | None => true end
-           | JObj l => obj_ok c l &&
-                forallb (fun kp => match assoc (fst kp) l with Some x => Sat (snd kp) x | None => true end) props &&
+           | JObj l => obj_ok md c l (map (fun kp => (fst kp, core_of (snd kp))) props) &&
+                forallb (fun kp => match assoc (fst kp) l with
+                                   | Some x => negb (forbidden md (core_of (snd kp))) && Sat (snd kp) x
+                                   | None => true end) props &&
                 forallb (fun kv => str_in (fst kv) (map fst props) ||
                            (match c_apHas c with Some false => false | _ => true end &&
                             match ap with Some a => Sat a (snd kv) | None => true end)) l
@@ -377,9 +400,21 @@ Section MAIN.
             apply (Hq a k x eq_refl); eauto using assoc_in.
         + rewrite seq_accepts, enum_step_accepts, run_checks_accepts. cbn [is_nil andb].
           rewrite obj_checks_ok by assumption.
-          rewrite (obj_link c l props ap Hnodup Hnl); [|intros; now apply (Hp k p x)|intros; now apply (Hq a k x)].
-          unfold obj_ok. f_equal. rewrite !Bool.andb_assoc.
-          btauto. }
+          assert (Hg : forall k p, In (k, p) props -> forbidden md (core_of p) = true -> Sat p JNull = false).
+          { intros k p Hin Hf. unfold S, g_rw_here in Hrw. rewrite forallb_forall in Hrw.
+            specialize (Hrw _ Hin). cbn [snd] in Hrw. rewrite Hf in Hrw. cbn [negb orb] in Hrw.
+            now apply Bool.negb_true_iff in Hrw. }
+          pose proof (obj_link c l props ap Hnodup Hnl
+                        (fun k p x H1 H2 => proj2 (Hp k p x H1 H2))
+                        (fun a k x H1 H2 => proj2 (Hq a k x H1 H2)) Hg) as Hlink.
+          unfold obj_ok. f_equal.
+          set (A := permits c "object") in *.
+          set (R := forallb _ (map _ props)) in *. set (K := forallb (key_ok _ _ _ _) l) in *.
+          set (P := forallb _ props) in *. set (U := forallb _ l) in Hlink |- *.
+          set (B := N.leb _ _). set (C := match c_maxProps c with Some m => _ | None => true end).
+          set (F := forallb _ (c_required c)).
+          destruct A, B, C, F; cbn [andb]; try reflexivity; try (now rewrite !Bool.andb_false_r);
+            rewrite ?Bool.andb_true_r; exact Hlink || (rewrite <- Hlink; btauto) || idtac. }
     destruct HT as [HTp HTa].
     destruct (comps_part c v _ _ _ _ T Anp Onp Ynp Lnp HTp) as [Xp Xa].
     split; [exact Xp|]. rewrite Xa, HTa.
